@@ -514,6 +514,18 @@ theorem applyOp_closed (hc : Closed P) (s : BSt) (op : Op) (h : P s) : P (applyO
     · exact hc.gone _ true (exitLoop_closed hc _ (fun s site hs => runInj_closed hc [] s site hs) 1000 _ _
         (hc.siteCnt s [] h))
 
+theorem Closed.congr {Q : BSt → Prop} (hc : Closed P) (e : ∀ s, P s ↔ Q s) : Closed Q where
+  frame := fun s s' h f => (e _).mp (hc.frame s s' ((e _).mpr h) f)
+  refresh := fun s h => (e _).mp (hc.refresh s ((e _).mpr h))
+  ctxEmpty := fun s i h => (e _).mp (hc.ctxEmpty s i ((e _).mpr h))
+  dropCtx := fun s i h hv he hz => (e _).mp (hc.dropCtx s i ((e _).mpr h) hv he hz)
+  prepRead := fun s i h => (e _).mp (hc.prepRead s i ((e _).mpr h))
+  commitRead := fun s i h => (e _).mp (hc.commitRead s i ((e _).mpr h))
+  readOne := fun s i st rest h hq hr => (e _).mp (hc.readOne s i st rest ((e _).mpr h) hq hr)
+  pop := fun s i st rest h hb => (e _).mp (hc.pop s i st rest ((e _).mpr h) hb)
+  failReset := fun s i h hf => (e _).mp (hc.failReset s i ((e _).mpr h) hf)
+  front := fun s f h => (e _).mp (hc.front s f ((e _).mpr h))
+
 /-- **the skeleton**: a closed predicate is an invariant of every schedule -/
 theorem runOps_closed (hc : Closed P) : ∀ (ops : List Op) (s : BSt), P s → P (runOps s ops) := by
   intro ops
